@@ -996,3 +996,46 @@ class Gen:
             body += self.block(ctx, room=2)
         body.append(('trace', self.next_site(), ('arr', [('var', n) for n in self.nums])))
         return pre + body
+
+
+class GenHostile(Gen):
+    """C05: blocks that exit early / leave extra values, embedded in half-built array and arithmetic expressions."""
+
+    def __init__(self, rng, max_depth=4, max_stmts=40, avoid=()):
+        Gen.__init__(self, rng, max_depth, max_stmts, avoid)
+
+    def embedded(self, ctx):
+        """[a, <construct>, b] or a + <construct>: the enclosing expression has pending operands while the block runs"""
+        r = self.rng
+        allow_bo = 'breakout-operands' not in self.avoid
+        c2 = dict(ctx, hostile=True)
+        if not allow_bo or ctx.get('exit_kind'):
+            c2['scopes'] = []
+            c2['in_try'] = False
+        form = r.random()
+        if form < 0.6:
+            # any-typed element inside an array literal, possibly nested
+            c2['exit_kind'] = None
+            inner = self.construct(c2)
+            arr = [self.num(ctx), inner, self.num(ctx)]
+            if r.random() < 0.3:
+                arr = [self.num(ctx), ('arr', arr), self.construct(c2) if r.random() < 0.5 else self.num(ctx)]
+            self.features.add('embed-array')
+            return ('arr', arr)
+        self.features.add('embed-arith')
+        c = self.construct(dict(c2, exit_kind='num', scopes=[], in_try=False), want='num')
+        if r.random() < 0.5:
+            return ('bin', r.choice(['+', '-']), self.num(ctx), c)
+        return ('bin', '+', ('bin', '*', self.num(ctx), ('num', 2)), ('bin', '-', c, self.num(ctx)))
+
+    def stmt(self, ctx):
+        r = self.rng
+        if ctx['depth'] < self.max_depth and self.budget > 0 and r.random() < 0.35:
+            self.budget -= 1
+            return [('tracev', self.next_site(), self.embedded(ctx))]
+        if ctx.get('hostile') and r.random() < 0.15:
+            # extra values left behind by a statement: an expression statement in the middle of a block
+            self.budget -= 1
+            self.features.add('extra-values')
+            return [('expr', self.anyval(ctx)), ('expr', ('arr', [self.num(ctx), self.num(ctx)]))]
+        return Gen.stmt(self, ctx)
